@@ -84,6 +84,7 @@ Definition check_logZ s y := finite_b s && near (logZ_I (lw_I s)) y.
 Definition check_ess s y := finite_b s && near (ess_I (lw_I s)) y.
 Definition check_frac s y := finite_b s && two_b s && near (frac_I (lw_I s)) y.
 Definition check_zerr_code s y := finite_b s && two_b s && near (zerr_code_I (lw_I s)) y.
+Definition check_u s y := finite_b s && two_b s && near (u_I (lw_I s)) y.
 Definition check_dz s sprev y := finite_b s && finite_b sprev && near (dz_I (lw_I s) (lw_I sprev)) y.
 Definition check_ratio sa s y := finite_b sa && finite_b s && near (ratio_I (lw_I sa) (lw_I s)) y.
 Definition check_stdcond (logZ logLmax : dyad) (it nlive : Z) y :=
@@ -97,6 +98,7 @@ Inductive ccase :=
 | CEss (s : samples) (y : dyad)
 | CFrac (s : samples) (y : dyad)              (* fractional_error, and the reported log-evidence error *)
 | CZerrCode (s : samples) (y : dyad)          (* Z_err as coded: exp (u / Zhat) *)
+| CU (s : samples) (y : dyad)                 (* the evidence error u (what Z_err would be once D10 is repaired) *)
 | CDz (s sprev : samples) (y : dyad)
 | CRatio (sabove s : samples) (y : dyad)      (* ratio (above threshold / all) and ratio_ns (live / nested) *)
 | CStd (logZ logLmax : dyad) (it nlive : Z) (y : dyad).
@@ -107,6 +109,7 @@ Definition run_ccase (p : prec) (c : ccase) : bool :=
   | CEss s y => check_ess p s y
   | CFrac s y => check_frac p s y
   | CZerrCode s y => check_zerr_code p s y
+  | CU s y => check_u p s y
   | CDz s sp y => check_dz p s sp y
   | CRatio sa s y => check_ratio p sa s y
   | CStd z l it n y => check_stdcond p z l it n y
@@ -117,6 +120,7 @@ Definition ccase_ok (c : ccase) : Prop :=
   | CEss s y => crit_ok (ess_R (lw_R s)) y
   | CFrac s y => crit_ok (frac_R (lw_R s)) y
   | CZerrCode s y => crit_ok (zerr_code_R (lw_R s)) y
+  | CU s y => crit_ok (u_R (lw_R s)) y
   | CDz s sp y => crit_ok (dz_R (lw_R s) (lw_R sp)) y
   | CRatio sa s y => crit_ok (ratio_R (lw_R sa) (lw_R s)) y
   | CStd z l it n y => crit_ok (stdcond_R (dyv z) (dyv l) it n) y
